@@ -430,3 +430,34 @@ def c16f(ctx):
               (GRID, 0), fail='_full_tile_list (limited by its own bounding box, not by the grid) is used by %s: tiles hanging over the grid edge are fetched and stored' % sorted({f.short for f, x in callers}))
     if n < 4:
         raise Undecided('only %d _create_tile_list call sites' % n)
+
+
+@rule('C16.g', floor=2)
+def c16g(ctx):
+    """an oversized GetMap is refused as a document, never as an image of the requested size: when the size guard sets
+    prevent_image_exception every image-producing exception handler (in-image and blank) is out of reach -- the handler property
+    returns the XML handler on every path with the flag set"""
+    fn = ctx.fn('mapproxy/request/wms/__init__.py:WMSMapRequest.exception_handler')
+
+    def cls(node):
+        if node is None:
+            return 'fall'
+        if isinstance(node, ast.Return):
+            v = unparse(node.value)
+            return 'image' if ('ImageExceptionHandler' in v or 'BlankExceptionHandler' in v) else 'xml' if 'xml_exception_handler' in v else 'other:' + v[:30]
+        return type(node).__name__
+    tab = ctx.rows(table(fn.node.body, cls))
+    fl = [a for a in tab.atoms if a == 'self.prevent_image_exception']
+    bad = [asg for asg, out, _ in tab.assignments() if fl and asg[fl[0]] and out != 'xml']
+    ctx.check(len(fl) == 1 and not bad, 'WMSMapRequest.exception_handler:guarded-by-size-flag',
+              'with prevent_image_exception set the XML exception handler is returned for every EXCEPTIONS value (%d rows)' % len(tab.rows), fn,
+              fail='an image exception handler (in-image or blank) can be chosen although the request was refused for its size: the error is '
+                   'answered with an image of the refused size')
+    cm = ctx.fn('mapproxy/service/wms.py:WMSServer.check_map_request')
+    g = cm.cfg
+    raises = [n for n in g.find_stmts(lambda s: isinstance(s, ast.Raise)) if any(
+        at.op == '<' and 'max_output_pixels' in at.text for at, p in g.guards_of(n))]
+    sets = g.find_stmts(lambda s: isinstance(s, ast.Assign) and unparse(s.targets[0]).endswith('.prevent_image_exception') and const_value(s.value) is True)
+    ok = bool(raises) and bool(sets) and all(any(g.dominates(s, r) for s in sets) for r in raises)
+    ctx.check(ok, 'WMSServer.check_map_request:flag-before-raise', 'the size guard sets prevent_image_exception before it raises', cm,
+              fail='the size guard raises without setting prevent_image_exception: an in-image error of the refused size is rendered')
